@@ -2,6 +2,8 @@ pub mod map;
 pub mod key;
 pub mod seg;
 pub mod set;
+#[cfg(feature = "verif-hooks")]
+pub mod verif;
 
 pub const EMPTY_REF: u32 = u32::MAX;
 
